@@ -121,10 +121,21 @@ def behaviour(rng, i):
             left.append({"k": k0 + rng.choice([1, 2]), "ids": [9001, 9002]})
             rng.shuffle(left)
     leftovers = [{"name": expected_name(kind, f["k"], prefix, suffix), "content": "".join("b%d\n" % x for x in f["ids"])} for f in left]
+    # files in the directory that are NOT the appender's: another name altogether, and (with a prefix and a suffix configured) the
+    # same prefix and date with another suffix - never deleted, never counted towards the file limit
+    foreign = []
+    if rng.random() < 0.5:
+        foreign.append({"name": "zzz-other.dat", "content": "keep me\n"})
+        if prefix is not None and suffix is not None:
+            other = "json" if suffix != "json" else "old"
+            for dk in (1, 2):
+                foreign.append({"name": expected_name(kind, max(0, (t0 // P if P else 0) - dk), prefix, other), "content": "theirs\n"})
+        rng.shuffle(foreign)
+    leftovers = foreign[:1] + leftovers + foreign[1:]
     # with a prefix only, the appender may equally be made by RollingFileAppender::new or the helper functions
     ctor = rng.choice(["builder", "new", "helper"]) if (prefix is not None and suffix is None and maxf == 0) else "builder"
     return {"src": "random-c16", "id": i, "kind": kind, "prefix": prefix, "suffix": suffix, "max_files": maxf, "t0": t0, "steps": steps, "ctor": ctor,
-            "left": left, "leftovers": leftovers}
+            "left": left, "leftovers": leftovers, "foreign": foreign}
 
 
 def to_trace(behs, lines):
@@ -140,13 +151,19 @@ def to_trace(behs, lines):
             fs = x.get("files", [])
             k0 = (b["t0"] // PER[b["kind"]]) if PER[b["kind"]] else 0
             mine = [f for f in fs if f["name"] == expected_name(b["kind"], k0, b["prefix"], b["suffix"])]
-            out[-1]["init_ok"] = ("error" not in x and len(fs) == 1 + len(b.get("left", [])) and len(mine) == 1 and mine[0]["content"] == "")
+            out[-1]["init_ok"] = ("error" not in x and len(fs) == 1 + len(b.get("left", [])) + len({f["name"] for f in b.get("foreign", [])}) and len(mine) == 1 and mine[0]["content"] == "")
             continue
         if x.get("ev") != "op":
             out.append(x)
             continue
         files, names_ok = [], True
+        foreign = {f["name"]: f["content"] for f in b.get("foreign", [])}
+        present = {f["name"]: f["content"] for f in x["listing"]}
+        if any(present.get(nm) != c for nm, c in foreign.items()):
+            names_ok = False        # somebody else's file was deleted or changed
         for f in x["listing"]:
+            if f["name"] in foreign:
+                continue
             k = name_to_period(b["kind"], f["name"], b["prefix"], b["suffix"])
             if k is None or f["name"] != expected_name(b["kind"], k, b["prefix"], b["suffix"]):
                 names_ok = False
